@@ -23,7 +23,7 @@ EXTENDS RoutingOps
 \* ---- the pools
 CVariants == {"plain", "thr", "badfilter_kind", "thr_then_bad", "bad_then_thr", "absent"}
 \* x: [v |-> variant]; "ok" variants build, all others make the appender fail to build
-XOk == {"file", "file_trunc", "file_json", "file_pat", "file_env", "roll_delete", "roll_window", "roll_zero_limit", "roll_time", "console", "absent"}
+XOk == {"file", "file_trunc", "file_json", "file_pat", "file_empty_pat", "file_env", "roll_delete", "roll_window", "roll_zero_limit", "roll_time", "console", "absent"}
 XBroken == {"file_unknown_key", "file_path_wrong_type", "file_append_wrong_type", "enc_unknown_key", "enc_unknown_kind",
             "policy_unknown_key", "policy_unknown_kind", "trigger_unknown_key", "trigger_unknown_kind", "trigger_neg_limit",
             "trigger_bad_unit", "roller_unknown_key", "roller_unknown_kind", "roller_neg_count", "roller_no_count",
